@@ -689,15 +689,22 @@ Qed.
 Lemma fib_loss_bump : forall g d t, (run_loss (bump (Fib g) d :: t) == run_loss (Fib g :: t) + d)%Q.
 Proof. intros. unfold run_loss. cbn [map qsum el_loss bump]. unfold fib_loss. cbn. ring. Qed.
 
+Lemma raman_first_plain : forall rg r, has_raman r = false -> (raman_first rg r == 0)%Q.
+Proof.
+  intros rg. unfold raman_first, has_raman. induction r as [|e t IH]; intro H; [reflexivity|].
+  cbn [existsb map qsum] in *. apply Bool.orb_false_iff in H. destruct H as [H1 H2]. rewrite (IH H2).
+  destruct e as [f|n lo|a]; try ring. rewrite H1. ring.
+Qed.
+Lemma raman_first_bump : forall rg g d t, raman_first rg (bump (Fib g) d :: t) = raman_first rg (Fib g :: t).
+Proof. reflexivity. Qed.
 (* the only thing padding changes: att_in of the first element of a span, when that is a fibre *)
 Lemma pad_run_shape : forall c r r', pad_run c r = Ok r' ->
-  r' = r \/ exists g t, r = Fib g :: t /\ r' = bump (Fib g) (c_pad c - run_loss r) :: t /\ (run_loss r < c_pad c)%Q.
+  r' = r \/ exists g t, r = Fib g :: t /\ r' = bump (Fib g) (c_pad c - span_sl c r) :: t /\ (span_sl c r < c_pad c)%Q.
 Proof.
   intros c r r' H. unfold pad_run in H.
   destruct (last r dflt) as [f|n lo|a]; try (inversion H; left; reflexivity).
   destruct (f_raman f); [inversion H; left; reflexivity|].
-  destruct (has_raman r); [discriminate|].
-  destruct (Qltb (run_loss r) (c_pad c)) eqn:E; [|inversion H; left; reflexivity].
+  destruct (Qltb (span_sl c r) (c_pad c)) eqn:E; [|inversion H; left; reflexivity].
   destruct r as [|[g|n lo|a] t]; try (inversion H; left; reflexivity).
   inversion H. right. exists g, t. repeat split. apply Qltb_lt. exact E.
 Qed.
@@ -721,27 +728,39 @@ Proof.
 Qed.
 Lemma pad_run_padded : forall c r r', pad_run c r = Ok r' -> run_padded (c_pad c) r' = true.
 Proof.
-  intros c r r' H. unfold pad_run in H. rewrite run_padded_eq. unfold run_padded'.
+  intros c r r' H. pose proof H as H0. unfold pad_run in H. rewrite run_padded_eq. unfold run_padded'.
   destruct (last r dflt) as [f|n lo|a] eqn:El.
   - destruct (f_raman f) eqn:Er.
     + (assert (Hrr : r' = r) by (inversion H; reflexivity)); subst r'. rewrite El, Er.
       rewrite Bool.orb_true_r. reflexivity.
-    + destruct (has_raman r) eqn:Hr; [discriminate|].
-      destruct (Qltb (run_loss r) (c_pad c)) eqn:E.
+    + destruct (has_raman r) eqn:Hr.
+      { (* a Raman fibre in the span: exempt, whatever was padded *)
+        destruct (pad_run_shape c r r' H0) as [E|(g & t & E1 & E2 & _)].
+        - subst r'. rewrite El, Hr. rewrite Bool.orb_true_r. reflexivity.
+        - subst r r'. rewrite has_raman_bump, Hr.
+          destruct t as [|e2 t2].
+          + cbn [last bump]. rewrite Bool.orb_true_r. reflexivity.
+          + assert (L1 : last (bump (Fib g) (c_pad c - span_sl c (Fib g :: e2 :: t2)) :: e2 :: t2) dflt = Fib f)
+              by (rewrite <- El; reflexivity).
+            rewrite L1. rewrite Bool.orb_true_r. reflexivity. }
+      pose proof (raman_first_plain (c_rg c) r Hr) as R0.
+      destruct (Qltb (span_sl c r) (c_pad c)) eqn:E.
       * destruct r as [|e t]; [cbn in El; discriminate|].
         destruct e as [g|n lo|a]; try ((assert (Hrr : r' = Fus n lo :: t) by (inversion H; reflexivity)); subst r'; rewrite El, Er, Hr; reflexivity);
           try ((assert (Hrr : r' = Amp a :: t) by (inversion H; reflexivity)); subst r'; rewrite El, Er, Hr; reflexivity).
-        assert (Hrr : r' = bump (Fib g) (c_pad c - run_loss (Fib g :: t)) :: t) by (inversion H; reflexivity). subst r'. clear H.
-        assert (L : exists f', last (bump (Fib g) (c_pad c - run_loss (Fib g :: t)) :: t) dflt = Fib f' /\ f_raman f' = false).
+        assert (Hrr : r' = bump (Fib g) (c_pad c - span_sl c (Fib g :: t)) :: t) by (inversion H; reflexivity). subst r'. clear H.
+        assert (L : exists f', last (bump (Fib g) (c_pad c - span_sl c (Fib g :: t)) :: t) dflt = Fib f' /\ f_raman f' = false).
         { destruct t as [|e2 t2].
           - cbn in El. inversion El; subst f. eexists. split; [reflexivity | exact Er].
           - exists f. split; [|exact Er]. rewrite <- El. reflexivity. }
         destruct L as (f' & L1 & L2). rewrite L1, L2, has_raman_bump, Hr.
-        assert (SF : starts_fib (bump (Fib g) (c_pad c - run_loss (Fib g :: t)) :: t) = true) by reflexivity.
+        assert (SF : starts_fib (bump (Fib g) (c_pad c - span_sl c (Fib g :: t)) :: t) = true) by reflexivity.
         rewrite SF. cbn [orb negb].
-        apply Qle_bool_iff. rewrite fib_loss_bump. ring_simplify. apply Qle_refl.
+        apply Qle_bool_iff. rewrite fib_loss_bump. unfold span_sl. rewrite R0. ring_simplify. apply Qle_refl.
       * (assert (Hrr : r' = r) by (inversion H; reflexivity)); subst r'. rewrite El, Er, Hr.
-        apply Qltb_ge in E. apply Qle_bool_iff in E. rewrite E. rewrite !Bool.orb_true_r. reflexivity.
+        apply Qltb_ge in E. unfold span_sl in E. rewrite R0 in E.
+        assert (E' : (c_pad c <= run_loss r)%Q) by (eapply Qle_trans; [exact E|]; ring_simplify; apply Qle_refl).
+        apply Qle_bool_iff in E'. rewrite E'. rewrite !Bool.orb_true_r. reflexivity.
   - (assert (Hrr : r' = r) by (inversion H; reflexivity)); subst r'. rewrite El. reflexivity.
   - (assert (Hrr : r' = r) by (inversion H; reflexivity)); subst r'. rewrite El. reflexivity.
 Qed.
@@ -940,7 +959,7 @@ Qed.
 
 (* ---------- witnesses: where the faithful model does NOT satisfy the full-strength property ---------- *)
 Transparent kind_check preamp_name booster_name inline_name.
-Definition w_cfg : cfg := mkCfg 150000 50000 10 0 0 0.
+Definition w_cfg : cfg := mkCfg 150000 50000 10 0 0 0 (fun _ => 0%Q).
 Definition w_fib (n : string) (km : Z) (lum : list (Q * Q)) : fib :=
   mkFib n false (qz (km * 1000)) (1 # 5000) None None 0 lum.
 
@@ -957,13 +976,13 @@ Proof. exists w_cfg, (w_fib "f" 200 [(150, 3 # 2)]%Q). eexists. split; vm_comput
 Lemma calc_len_zero_division : exists c L e, c_max c < c_min c /\ (qz (c_max c) <= L)%Q /\
   calc_len L (c_min c) (c_max c) (c_target c) = Err e.
 Proof.
-  exists (mkCfg 40000 50000 10 0 0 0), (qz 45000). eexists.
+  exists (mkCfg 40000 50000 10 0 0 0 (fun _ => 0%Q)), (qz 45000). eexists.
   split; [vm_compute; reflexivity|]. split; [vm_compute; congruence | vm_compute; reflexivity].
 Qed.
 Lemma calc_len_above_max_refuted : exists c L len n, c_max c < c_min c /\
   calc_len L (c_min c) (c_max c) (c_target c) = Ok (len, n) /\ (qz (c_max c) < len)%Q.
 Proof.
-  exists (mkCfg 150000 200000 40 0 0 0), (qz 500000). eexists. eexists.
+  exists (mkCfg 150000 200000 40 0 0 0 (fun _ => 0%Q)), (qz 500000). eexists. eexists.
   split; [vm_compute; reflexivity|]. split; vm_compute; reflexivity.
 Qed.
 (* a Raman fibre at or above max_length is replaced by plain fibres *)
@@ -983,13 +1002,15 @@ Proof.
   exists w_cfg, (w_line [Fib (w_fib "f" 5 []); Fus "u" 1; w_user_amp "a"]). eexists. eexists.
   split; [vm_compute; reflexivity|]. split; [right; left; reflexivity|]. repeat split; vm_compute; reflexivity.
 Qed.
-(* a Raman fibre inside a fused run that ends with a plain fibre: span_loss asks for its gain without a power *)
-Lemma pad_raman_raises : exists c l e, no_auto (l_els l) /\ design_line c l = Err e.
-Proof.
-  exists w_cfg, (w_line [w_user_amp "a"; Fib (mkFib "r" true (qz 80000) (1 # 5000) (Some 0%Q) (Some (1 # 2)) 0 []);
-                         Fus "u" 1; Fib (w_fib "f" 5 [])]). eexists.
-  split; vm_compute; reflexivity.
-Qed.
+(* a Raman fibre inside a fused run that ends with a plain fibre is designed (gnpy fix 36fd5b85 for finding F15):
+   the span is padded against its loss minus the estimated Raman gain, att_in goes to the Raman fibre (first of the run) *)
+Definition w_cfg_r : cfg := mkCfg 150000 50000 10 0 0 0 (fun _ => (15 # 2)%Q).
+Lemma pad_raman_designs : exists l', no_auto (l_els (w_line [w_user_amp "a";
+    Fib (mkFib "r" true (qz 80000) (1 # 5000) (Some 0%Q) (Some (1 # 2)) 0 []); Fus "u" 1; Fib (w_fib "f" 5 [])])) /\
+  design_line w_cfg_r (w_line [w_user_amp "a"; Fib (mkFib "r" true (qz 80000) (1 # 5000) (Some 0%Q) (Some (1 # 2)) 0 []);
+                               Fus "u" 1; Fib (w_fib "f" 5 [])]) = Ok l' /\
+  names (l_els l') = ["a"; "r"; "u"; "f"; "Edfa_preamp_B_from_f"]%string.
+Proof. eexists. split; [vm_compute; reflexivity|]. split; vm_compute; reflexivity. Qed.
 
 (* ---------- non-vacuity ---------- *)
 Definition ex_line : line :=
